@@ -84,23 +84,26 @@ def main():
     sc = vlib.scratch()
 
     # --- MC -------------------------------------------------------------------------------------
-    sub = dict(N="5", MaxDepth="3", MaxTries="3") if thorough else {}
+    sub = dict(N="4", MaxDepth="3", MaxTries="2") if thorough else {}
     mc = vlib.tlc("MCParseCursor", "mc.cfg", files={"mc.cfg": cfg("ParseCursor_mc.cfg", **sub)}, workers=8, timeout=1200)
     if not mc.ok:
         raise vlib.InfraError("ParseCursor: the contract does not give termination (%s)" % mc.violated)
     ck.add_tlc(mc, "ParseCursor_mc (TopBound + Termination)")
-    neg = vlib.tlc("MCParseCursor", "ParseCursor_neg.cfg", workers=1, timeout=300)
-    if neg.violated != "TopBound":
-        raise vlib.InfraError("negative config (match without consuming) not rejected: %s" % neg.violated)
+    for negcfg, inv in (("ParseCursor_neg.cfg", "TopBound"), ("ParseCursor_negeof.cfg", "CursorInBounds"),
+                        ("ParseCursor_negnest.cfg", "ReparseBound")):
+        neg = vlib.tlc("MCParseCursor", negcfg, workers=1, timeout=300)
+        if neg.violated != inv:
+            raise vlib.InfraError("negative config %s not rejected by %s: %s" % (negcfg, inv, neg.violated))
     pos = vlib.tlc("SourceMapPos", "pos.cfg", files={"pos.cfg": cfg("SourceMapPos_mc.cfg", MaxLen="5" if thorough else "4")},
                    workers=8, timeout=1200)
     if not pos.ok:
         raise vlib.InfraError("SourceMapPos: PositionAt is not the position algebra (%s)" % pos.violated)
     ck.add_tlc(pos, "SourceMapPos_mc")
-    negp = vlib.tlc("SourceMapPos", "SourceMapPos_neg.cfg", workers=1, timeout=300)
-    if negp.violated != "PositionIsAdvance":
-        raise vlib.InfraError("negative config (newline off by one) not rejected: %s" % negp.violated)
-    ck.set("negative_configs_rejected", 2)
+    for negcfg, inv in (("SourceMapPos_neg.cfg", "PositionIsAdvance"), ("SourceMapPos_negeof.cfg", "EofPositionInInput")):
+        negp = vlib.tlc("SourceMapPos", negcfg, workers=1, timeout=300)
+        if negp.violated != inv:
+            raise vlib.InfraError("negative config %s not rejected by %s: %s" % (negcfg, inv, negp.violated))
+    ck.set("negative_configs_rejected", 5)
 
     # --- exploration ------------------------------------------------------------------------------
     binp, hook = build_harness()
@@ -127,6 +130,9 @@ def main():
     min_eval = 300000 if thorough else 40000
     if s["evaluations"] < min_eval and not s["stopped_early"]:
         raise vlib.InfraError("only %d inputs were parsed" % s["evaluations"])
+    for fam in ("corpus", "trunc", "mut", "ends", "nest"):
+        if s["by_kind"].get(fam, 0) == 0:
+            raise vlib.InfraError("input family %s is empty" % fam)
     if s["gofmt_ok"] < 1000 or s["errors_with_position"] < 1000:
         raise vlib.InfraError("exploration is lopsided: %s accepted+gofmt, %s positioned errors" % (s["gofmt_ok"], s["errors_with_position"]))
     if hook:
@@ -140,6 +146,8 @@ def main():
     for f in fails:
         if f["sig"].startswith("NoProgress:"):
             noprogress_reported += 1
+        if f["sig"].startswith("ReparseBound:"):
+            f["case"]["growth_with_depth"] = [w for w in s.get("nest_work", []) if w["kind"].split(":")[1] == f["case"]["kind"].split(":")[1]][:14]
         ck.violation(f["sig"], f["what"], f["case"])
 
     # watchdog suspects: confirm with a long single run + goroutine dumps
@@ -164,8 +172,8 @@ def main():
             fn = looping_function(res.get("dumps", []))
             if fn is None:
                 raise vlib.InfraError("suspect still running after %ss but no parser frame in the dumps: %s" % (long_t, su))
-            ck.violation("hang:" + fn, "parser does not return within %ss on a %d-byte input; goroutine stays in %s (cursor within [%s, %s] during the last samples)" % (
-                long_t, len(data), fn, res.get("cursor_min_last_10s"), res.get("cursor_max_last_10s")),
+            ck.violation("hang:" + fn, "parser does not return within %ss on a %d-byte input; goroutine stays in %s " % (
+                long_t, len(data), fn),
                 {"input_go_quoted": json.dumps(data.decode("latin-1")), "kind": su["kind"], "origin": su["origin"],
                  "looping_function": fn, "dump": res["dumps"][0][:6000], "reproduce": "parser.ParseString(input)"})
         elif res.get("result", "").startswith("panic"):
@@ -260,12 +268,36 @@ def main():
 
     # cursor: every non-termination the harness reported must be rejected by TLC as well
     if hook:
-        nbad = sum(len(r.tagged("BAD")) for k, r in res.items() if k.startswith("cursor-"))
         nev = sum(r.tagged("DONE")[0]["events"] for k, r in res.items() if k.startswith("cursor-"))
         if nev != s["cursor_lines"]:
             raise vlib.InfraError("TraceParseCursor consumed %d of %d lines" % (nev, s["cursor_lines"]))
-        if (nbad > 0) != (s["no_progress"] > 0) or (nbad < s["no_progress"]):
-            raise vlib.InfraError("TLC (TraceParseCursor) found %d faulty loop tops, the harness aborted %d parses" % (nbad, s["no_progress"]))
+        # two keys: what TLC rejects per parse must be what the harness flagged for that parse
+        tlc_ids = {"NoProgress": set(), "CursorInBounds": set(), "ReparseBound": set()}
+        topbound = set()
+        for k, r in res.items():
+            if k.startswith("cursor-"):
+                for b in r.tagged("BAD"):
+                    for sig in b["sigs"]:
+                        if sig == "TopBound":
+                            topbound.add(b["id"])    # n+2 tops: only possible after NoProgress or a cursor beyond n
+                        else:
+                            tlc_ids[sig].add(b["id"])
+        har_ids = {"NoProgress": set(), "CursorInBounds": set(), "ReparseBound": set()}
+        for l in clines:
+            if '"k":"in"' in l:
+                e = json.loads(l)
+                if e["flag"]:
+                    har_ids["NoProgress"].add(e["id"])
+                if e["oob"]:
+                    har_ids["CursorInBounds"].add(e["id"])
+                if e["rp"]:
+                    har_ids["ReparseBound"].add(e["id"])
+        if tlc_ids != har_ids or not topbound <= (har_ids["NoProgress"] | har_ids["CursorInBounds"]):
+            raise vlib.InfraError("TLC (TraceParseCursor) and the harness disagree: TLC %s, harness %s" % (
+                {k: sorted(v)[:5] for k, v in tlc_ids.items()}, {k: sorted(v)[:5] for k, v in har_ids.items()}))
+        if har_ids["CursorInBounds"]:
+            ck.notes.append("model drift: the parser's cursor went beyond the caller's input in %d parses (ParseCursor.CursorInBounds; "
+                            "positions taken there are judged by TraceRanges)" % len(har_ids["CursorInBounds"]))
         ck.set("loop_top_events_validated", nev)
         ck.set("parses_with_validated_events", s["cursor_inputs"])
         ck.set("max_tops_per_loop_invocation", s["max_tops_per_frame"])
@@ -280,6 +312,9 @@ def main():
                    "test data, parser fuzz seeds), their byte-wise truncations, and seeded token-level mutations of them")
     ck.set("corpus_inputs", s["corpus_inputs"])
     ck.set("by_kind", s["by_kind"])
+    ck.set("max_entries_of_one_loop_at_one_index", s["max_entries_same_loop_same_index"])
+    ck.set("nesting_work", [w for w in s.get("nest_work", []) if w["kind"].split(":")[2] in ("2", "4", "8")])
+    ck.set("cursor_beyond_input", s["cursor_beyond_input"])
     ck.set("accepted_by_parser", s["accepted"])
     ck.set("accepted_generated_gofmt", s["gofmt_ok"])
     ck.set("errors_with_position", s["errors_with_position"])
